@@ -354,7 +354,7 @@ def coopLine : P String := do
       pure (some (dd, ms))) : P (Option (XRat × List Tab2)))
   P.eof
   if mats.any (fun m => m.ent.any illRow) then return "skip ill_conditioned" else
-  let maccept := coopAccepts AITB.Gen.Guards.ctor_CooperativeModel_checksDiscount g mats bases d
+  let maccept := coopAccepts (coopDiscountRejected d) g mats bases
   let v : Verdict := { tag := "coop " ++ err }
   let v := v.failIf (threw && err != "invalid_argument") s!"{comp} wrong_exception_class {err}"
   let okTag (space tag : List Nat) : Bool :=
